@@ -330,9 +330,20 @@ func runC18Report(c *Ctx) {
 		c.anchorMissing("(*RuleJobNeeds).VisitWorkflowPost")
 		return
 	}
+	// the resolution of the needs entries may live in VisitWorkflowPost or in a method of the rule that it calls
+	scope := []*ssa.Function{fn}
+	for _, h := range p.withHelpers(fn, 1) {
+		if h != fn && h.Signature.Recv() != nil && pointeeName(h.Signature.Recv().Type()) == "RuleJobNeeds" {
+			scope = append(scope, h)
+		}
+	}
 	// dangling reference: reported iff the lookup of a needs entry fails, at the referring node's position
 	var dangling ssa.CallInstruction
-	for _, call := range findCalls(fn, "(*RuleBase).Errorf") {
+	var errfCalls []ssa.CallInstruction
+	for _, f := range scope {
+		errfCalls = append(errfCalls, findCalls(f, "(*RuleBase).Errorf")...)
+	}
+	for _, call := range errfCalls {
 		for ifi, outcome := range controllingConds(call.Block()) {
 			if t, k := lookupCond(ifi.Cond); t == "RuleJobNeeds.nodes" && !outcome {
 				// key ranges over the needs of the node
@@ -373,23 +384,25 @@ func runC18Report(c *Ctx) {
 	}
 	// resolved neighbours: appended iff found, the looked-up node itself
 	okAppend := false
-	eachInstr(fn, func(b *ssa.BasicBlock, _ int, in ssa.Instruction) {
-		call, ok := in.(*ssa.Call)
-		if !ok {
-			return
-		}
-		if bi, ok := call.Call.Value.(*ssa.Builtin); !ok || bi.Name() != "append" {
-			return
-		}
-		if f, _ := fieldLoad(call.Call.Args[0]); f != "jobNode.resolved" {
-			return
-		}
-		for ifi, outcome := range controllingConds(b) {
-			if t, _ := lookupCond(ifi.Cond); t == "RuleJobNeeds.nodes" && outcome {
-				okAppend = true
+	for _, sf := range scope {
+		eachInstr(sf, func(b *ssa.BasicBlock, _ int, in ssa.Instruction) {
+			call, ok := in.(*ssa.Call)
+			if !ok {
+				return
 			}
-		}
-	})
+			if bi, ok := call.Call.Value.(*ssa.Builtin); !ok || bi.Name() != "append" {
+				return
+			}
+			if f, _ := fieldLoad(call.Call.Args[0]); f != "jobNode.resolved" {
+				return
+			}
+			for ifi, outcome := range controllingConds(b) {
+				if t, _ := lookupCond(ifi.Cond); t == "RuleJobNeeds.nodes" && outcome {
+					okAppend = true
+				}
+			}
+		})
+	}
 	if okAppend {
 		c.ok("(*RuleJobNeeds).VisitWorkflowPost|edges of the graph", fn.Pos(), "an edge is added iff the needed job exists")
 	} else {
@@ -406,6 +419,9 @@ func runC18Report(c *Ctx) {
 		// a path from the dangling report to the detection must pass a test of the `valid` flag
 		guarded := false
 		for ifi := range controllingConds(det.Block()) {
+			if dangling.Parent() != fn {
+				break // reported in a helper: no flag of this function can depend on it
+			}
 			var ph *ssa.Phi
 			want := true
 			if x, ok := ifi.Cond.(*ssa.Phi); ok && isBoolType(x.Type()) {
